@@ -112,9 +112,7 @@ func (fr *Frame) call(in ssa.Instruction, c *ssa.CallCommon, st *State, g string
 				mh, mv := fc.mapComps(m)
 				keys[mh], keys[mv], keys["ML"] = true, true, true
 			}
-			if ws.alloc {
-				keys["W"] = true
-			}
+			keys["W"] = true
 			for k := range keys {
 				fc.noteWrite(k)
 			}
@@ -126,6 +124,7 @@ func (fr *Frame) call(in ssa.Instruction, c *ssa.CallCommon, st *State, g string
 	}
 	// external function without a trusted contract
 	if fc.eng.knownTotalPure(key) {
+		fc.bumpWatermark(st)
 		res := fr.resultSVs(sig, fr.prefix+"x", st, g)
 		fr.assumeWF(res, st, g)
 		return res
@@ -322,6 +321,10 @@ func (fr *Frame) applySpec(spec *FuncSpec, key string, sig *types.Signature, arg
 	}
 	env.cur = st
 	env.old = old
+	if !spec.Pure {
+		// the callee may allocate: its results may point to objects newer than the caller's watermark
+		fc.bumpWatermark(st)
+	}
 	// results
 	var res []SV
 	if spec.Fresh && sig.Results().Len() >= 1 {
@@ -657,6 +660,8 @@ func (fr *Frame) sortSliceModel(c *ssa.CallCommon, st *State, g string, pos toke
 	fc.emit(fmt.Sprintf("(assert (forall ((b Int)) (! (=> %s (and %s (= (%s (%s b)) b) (= %s %s))) :pattern ((%s b)) :pattern (%s))))",
 		inr("b"), inr("("+pinv+" b)"), perm, pinv, at(nb, "("+pinv+" b)"), at(oldBlk, "b"), pinv, at(oldBlk, "b")))
 	fc.emit(fmt.Sprintf("(assert (forall ((a Int)) (! (=> (not (and (<= %s a) (< a (+ %s %s)))) (= (select %s a) (select %s a))) :pattern ((select %s a)))))", off, off, n, nb, oldBlk, nb))
+	// injectivity stated directly (follows from the inverse; spares the solver a step)
+	fc.emit(fmt.Sprintf("(assert (forall ((a Int) (b Int)) (! (=> (and %s %s (not (= a b))) (not (= (%s a) (%s b)))) :pattern ((%s a) (%s b)))))", inr("a"), inr("b"), perm, perm, perm, perm))
 	fc.setComp(st, k, srt, app("store", heap, sarr(s.t), nb))
 	// ordering through the closure's definitional contract
 	spec := fc.eng.specFor(rec.fn)
